@@ -31,15 +31,22 @@ C07(i) ==
 
 C08(i) ==
   LET e == Ev(i) IN
-  IF IsStep(i) /\ e.main /\ ~e.pl /\ e.ts.type = LAST
-  THEN { <<"C08.return_eq_objective", acc + RewardInt(e) = e.s.score>> }
-  ELSE {}
+  (IF IsStep(i) /\ e.main /\ ~e.pl /\ e.ts.type = LAST
+   THEN { <<"C08.return_eq_objective", acc + RewardInt(e) = e.s.score>> }
+   ELSE {})
+  \cup
+  \* the objective is the sum of the tiles created by merges: every step pays exactly the tiles it merged (whatever
+  \* their size), so that the rewards of an episode add up to it
+  (IF IsStep(i) /\ ~e.pl
+   THEN { <<"C08.step_reward_is_merged_sum", RewardInt(e) = Reward(Pre(i), e.a)>> }
+   ELSE {})
 
 C09(i) ==
   LET e == Ev(i) IN
   IF IsStep(i) /\ ~e.pl THEN
     { <<"C09.step_rel", StepRel(A(Pre(i)), e.a, A(e.s))>>,
-      <<"C09.reward_eq", RewardInt(e) = Reward(Pre(i), e.a) /\ e.ts.reward.q[1] = RewardInt(e) * FX>>,
+      \* (the fixed-point image of the reward is only compared while it fits TLC's 32-bit integers)
+      <<"C09.reward_eq", RewardInt(e) = Reward(Pre(i), e.a) /\ (RewardInt(e) < 16384 => e.ts.reward.q[1] = RewardInt(e) * FX)>>,
       <<"C09.done_eq", (e.ts.type = LAST) = Done(e.s)>> }
   ELSE {}
 
